@@ -293,7 +293,7 @@ pub fn readyok(l: &str) -> bool {
     l.contains("readyok")
 }
 
-fn looks_like_move(t: &str) -> bool {
+pub fn looks_like_move(t: &str) -> bool {
     let b = t.as_bytes();
     (b.len() == 4 || b.len() == 5)
         && (b'a'..=b'h').contains(&b[0])
